@@ -568,6 +568,12 @@ def run_variant(t, tier, neg=None, keep=False, sweep=None):
                                for r in failed]
             out["replay"] = dict(note="known finding, not replayed")
             return out
+        if failed and unknown and all(known_match(
+                known, t["properties"], t["id"], r["property"],
+                r.get("description")) for r in failed):
+            raise Undecided("only known findings fail but %d obligations have "
+                            "status UNKNOWN (first: %s)" %
+                            (len(unknown), unknown[0]["property"]))
         if failed or unknown:
             bad = failed or unknown
             bad = sorted(bad, key=lambda r: (
@@ -610,6 +616,8 @@ def run_variant(t, tier, neg=None, keep=False, sweep=None):
             out["replay_defines"] = tt.get("defines", [])
             if failed:
                 out["status"] = "violation"
+                if unknown:
+                    out["unknown_obligations"] = [r["property"] for r in unknown][:40]
             elif out["replay"].get("confirmed"):
                 # solver said unknown (typical for a refuted quantified
                 # obligation on cvc5); the bounded witness harness found a
